@@ -700,7 +700,9 @@ impl Compiler {
                 }
 
                 if let Expr::Identifier(name) = &**left {
-                    if let Some(builtin) = builtins::resolve(name) {
+                    // a builtin is only meant if the program has not declared that name itself
+                    let declared = self.symbols.resolve(name).is_some();
+                    if let (false, Some(builtin)) = (declared, builtins::resolve(name)) {
                         self.emit_opcode(OpCode::CallBuiltin);
                         self.emit_u8(builtin as u8);
                         self.emit_u8(to_u8(arguments.len())?);
